@@ -24,11 +24,31 @@ type Program struct {
 	// TypeErrors lists type errors found in module packages (non generated).
 	TypeErrors []string
 	TotalPkgs  int
+	// Notes of the pre-analysis normalisation (helper expansion), if any.
+	Normalised []string
+	Overlay    map[string][]byte
 }
 
 // Load loads every package of the module rooted at repo (what `go build ./...` covers on
 // the given GOOS) together with all dependencies from source, and builds SSA for all of them.
 func Load(repo string, goos string, extraEnv ...string) (*Program, error) {
+	p, err := LoadOverlay(repo, goos, nil, extraEnv...)
+	if err != nil || len(p.TypeErrors) > 0 {
+		return p, err
+	}
+	p.BuildSSA()
+	return p, nil
+}
+
+// BuildSSA builds the SSA form of everything loaded.
+func (p *Program) BuildSSA() {
+	prog, _ := ssautil.AllPackages(p.Init, ssa.InstantiateGenerics)
+	prog.Build()
+	p.SSA = prog
+}
+
+// LoadOverlay type-checks the module with some files replaced by the given contents; SSA is not built.
+func LoadOverlay(repo string, goos string, overlay map[string][]byte, extraEnv ...string) (*Program, error) {
 	env := append(os.Environ(),
 		"GOFLAGS=-mod=mod", "GOPROXY=off", "GOSUMDB=off", "GOTOOLCHAIN=local", "GOWORK=off", "CGO_ENABLED=0")
 	if goos != "" {
@@ -37,17 +57,18 @@ func Load(repo string, goos string, extraEnv ...string) (*Program, error) {
 	env = append(env, extraEnv...)
 	fset := token.NewFileSet()
 	cfg := &packages.Config{
-		Mode:  packages.LoadAllSyntax,
-		Dir:   repo,
-		Fset:  fset,
-		Tests: false,
-		Env:   env,
+		Mode:    packages.LoadAllSyntax,
+		Dir:     repo,
+		Fset:    fset,
+		Tests:   false,
+		Env:     env,
+		Overlay: overlay,
 	}
 	pkgs, err := packages.Load(cfg, "./...")
 	if err != nil {
 		return nil, fmt.Errorf("packages.Load: %w", err)
 	}
-	p := &Program{Repo: repo, Fset: fset, Init: pkgs, ByPath: map[string]*packages.Package{}}
+	p := &Program{Repo: repo, Fset: fset, Init: pkgs, ByPath: map[string]*packages.Package{}, Overlay: overlay}
 	packages.Visit(pkgs, nil, func(pk *packages.Package) {
 		p.ByPath[pk.PkgPath] = pk
 		p.TotalPkgs++
@@ -58,11 +79,5 @@ func Load(repo string, goos string, extraEnv ...string) (*Program, error) {
 		}
 	})
 	sort.Strings(p.TypeErrors)
-	if len(p.TypeErrors) > 0 {
-		return p, nil
-	}
-	prog, _ := ssautil.AllPackages(pkgs, ssa.InstantiateGenerics)
-	prog.Build()
-	p.SSA = prog
 	return p, nil
 }
